@@ -68,8 +68,8 @@ def _open_excl():
 
 def plan(tier):
     q = tier == "quick"
-    out = [{"name": "main", "examples": 48 if q else 3000, "shards": 8 if q else 16},
-           {"name": "hostile", "examples": 24 if q else 800, "shards": 8 if q else 16}]
+    out = [{"name": "main", "examples": 32 if q else 3000, "shards": 8 if q else 16},
+           {"name": "hostile", "examples": 16 if q else 800, "shards": 8 if q else 16}]
     for f in findings.open_for(PROPERTY):
         if f.exclude_profile:
             out.append({"name": "probe:" + f.id, "examples": 16 if q else 400, "shards": 4})
@@ -121,8 +121,10 @@ def extra_run(tier, seed, jobs):
             for t in TEMPLATES:
                 for am in ("yes", "no"):
                     cases.append({"kind": "corpus", "file": f, "template": t, "async": am, "files": 1 + (i % 2)})
-    for name, cfg in SHAPES.items():
-        for t in TEMPLATES:
+    for si, (name, cfg) in enumerate(SHAPES.items()):
+        # quick: one pythonic and one JSON-loading template per shape (rotating with the seed); thorough: all five
+        tpls = TEMPLATES if tier != "quick" else [TEMPLATES[(si + seed) % 3], TEMPLATES[3 + (si + seed) % 2]]
+        for t in tpls:
             cases.append({"kind": "gen", "config": copy.deepcopy(cfg), "template": t, "async": "no" if (len(name) + len(t)) % 2 else "yes",
                           "files": 1 + (len(name) % 2), "shape": name})
     ctx = mp.get_context("fork")
